@@ -270,7 +270,11 @@ func c08TemplateFamily(c *core.Ctx, double bool) bool {
 // ExampleFiles returns the shipped example/test programs (sorted, smallest first).
 func exampleFiles() []string {
 	var files []string
-	for _, pat := range []string{"/repo/examples/*.gr", "/repo/tests/*.gr"} {
+	repo := os.Getenv("VERIF_REPO")
+	if repo == "" {
+		repo = "/repo"
+	}
+	for _, pat := range []string{repo + "/examples/*.gr", repo + "/tests/*.gr"} {
 		m, _ := filepath.Glob(pat)
 		files = append(files, m...)
 	}
